@@ -4,6 +4,12 @@ CONSTANTS
   EnterOnFocusIn = FALSE
   StaleTarget = FALSE
   FastPath = FALSE
+  Reentrant = FALSE
+  LiveTarget = FALSE
+  BubbleSkipsLast = FALSE
+  ConsumeLeak = FALSE
+  DupSelf = FALSE
+  Answers = FALSE
   Depth = 3
   Shapes = {"A", "H", "P"}
 SPECIFICATION Spec
